@@ -31,7 +31,7 @@ def merge_orders(n=3):
     return out
 
 
-def gen_frags(rng, big_p=0.0):
+def gen_frags(rng, big_p=0.0, exp_p=0.0):
     """3 fragments x 3 keys, timestamps from {absent,1,2,3} (ties included)"""
     frags = []
     for f in range(3):
@@ -45,6 +45,12 @@ def gen_frags(rng, big_p=0.0):
         # one fragment consists of a single entry the receiver's storage rejects
         f = rng.randrange(3)
         frags[f] = [{"h": rng.choice([1, 2, 3]), "ts": rng.choice([1, 2, 3]), "big": True}]
+    if rng.random() < exp_p:
+        # some copies carry a deadline that has passed (not evicted yet): still the copy with the newest timestamp wins
+        for fr in frags:
+            for e in fr:
+                if not e.get("big") and rng.random() < 0.4:
+                    e["exp"] = True
     return frags
 
 
@@ -86,9 +92,14 @@ def scenarios(res):
     ncontent = 6 if quick else 60
     for j in range(ncontent):
         rng = vlib.rng_for(res.seed, PID, "merge", j)
-        frags = gen_frags(rng, big_p=0.25)
+        frags = gen_frags(rng, big_p=0.25, exp_p=0.5 if j % 2 else 0.0)
         scs.append({"id": sid, "rr": False, "rq": 1, "merges": [{"frags": frags, "order": o} for o in orders]})
         sid += 1
+    # the newest copy of a key carries a deadline that has passed, older copies carry none
+    frags = [[{"h": 1, "ts": 3, "exp": True}, {"h": 2, "ts": 1}], [{"h": 1, "ts": 1}, {"h": 2, "ts": 2, "exp": True}, {"h": 3, "ts": 2, "exp": True}],
+             [{"h": 1, "ts": 2}, {"h": 3, "ts": 1}]]
+    scs.append({"id": sid, "rr": False, "rq": 1, "merges": [{"frags": frags, "order": o} for o in orders]})
+    sid += 1
     # the read-repair / Delete schedule (D24)
     scs.append({"id": sid, "rr": True, "rq": 1, "race": True})
     sid += 1
@@ -162,6 +173,8 @@ def check_get(sc, g, ob):
 
 def check_merge(sc, m, ob):
     frags, order = m["frags"], m["order"]
+    if ob.get("evicted") and any(e.get("exp") for fr in frags for e in fr):
+        return None     # the background eviction removed a key while the fragments were delivered: the case is not judged
     if len(ob["replies"]) != len(order):
         return "%d replies for %d deliveries" % (len(ob["replies"]), len(order))
     final = {it["h"]: (it["val"], it["ts"]) for it in (ob.get("final") or [])}
@@ -291,12 +304,15 @@ def coq_cases(sc, ob):
         while j + 1 < len(merges) and merges[j + 1]["frags"] == merges[i]["frags"]:
             j += 1
         m = merges[i]
+        if any(e.get("exp") for fr in m["frags"] for e in fr) and any(ob["merges"][k].get("evicted") for k in range(i, j + 1)):
+            i = j + 1       # the background eviction interfered (see check_merge): not compared
+            continue
         frs = []
         for fi, fr in enumerate(m["frags"]):
             es = []
             for e in fr:
                 v = ("%d@%d" % (fi, e["ts"])).encode() + (b"B" * (2 * LWW_TABLE) if e.get("big") else b"")
-                es.append("(%s, %s)" % (cN(e["h"]), qlib.centry(v, 0, e["ts"])))
+                es.append("(%s, %s)" % (cN(e["h"]), qlib.centry(v, 1 if e.get("exp") else 0, e["ts"])))
             frs.append(clist(es))
         keys = [1, 2, 3]
         runs = []
@@ -440,6 +456,9 @@ def run(res):
             if len(set(c for c in g["copies"] if c)) >= 2:
                 nt.add(json.dumps([s.get("rr"), g]))
         for m, o in zip(s.get("merges", []), ob.get("merges", [])):
+            if any(e.get("exp") for fr in m["frags"] for e in fr):
+                k_ = "merge_cases_with_expired_copies" if not o.get("evicted") else "merge_cases_not_judged_eviction_interfered"
+                rh[k_] = rh.get(k_, 0) + 1
             for r in o["replies"]:
                 rh["merge:" + r] = rh.get("merge:" + r, 0) + 1
             per = {}
